@@ -30,7 +30,7 @@ def hexByte (b : Byte) : String :=
   String.ofList [hexChar (b.toNat / 16), hexChar (b.toNat % 16)]
 
 def bytesToHex (bs : List Byte) : String :=
-  String.join (bs.map hexByte)
+  if bs.isEmpty then "-" else String.join (bs.map hexByte)
 
 def parseHexBytes? (s : String) : Option (List Byte) :=
   let rec go : List Char → List Byte → Option (List Byte)
@@ -76,5 +76,20 @@ def outStr {α} (f : α → String) : Out α → String
   | .ok a => f a
   | .err => "err"
   | .panic => "panic"
+
+end Ax
+
+namespace Ax
+
+/-- FNV-1a (64 bit) of a byte string; used to compare area contents without printing them. -/
+def fnv64 (bs : List Byte) : Nat :=
+  bs.foldl (fun h b => ((h ^^^ b.toNat) * 0x100000001b3) % 18446744073709551616) 0xcbf29ce484222325
+
+def optName (n : Option String) : String :=
+  match n with
+  | some s => s
+  | none => "~"
+
+def parseName (s : String) : Option String := if s = "~" then none else some s
 
 end Ax
